@@ -19,6 +19,7 @@
 #include <sstream>
 #include <string>
 #include <sys/mman.h>
+#include <sys/resource.h>
 #include <sys/socket.h>
 #include <sys/wait.h>
 #include <system_error>
@@ -154,7 +155,11 @@ static void run_isolated(std::string const &id, char kind, std::string const &a,
   fflush(stdout);
   pid_t pid = fork();
   if(pid == 0) {
-    alarm(10);
+    // a constructor that hangs burns CPU (regex backtracking): the limit is on the child's own CPU time, so that a loaded or stalled
+    // machine cannot turn a trivial input into a "hang"; the wall-clock alarm is only the back-stop for a blocked system call
+    struct rlimit lim{10, 12};
+    setrlimit(RLIMIT_CPU, &lim);
+    alarm(180);
     on_small_stack([&] { construct(kind, a, b); });
     g_out += "K " + std::to_string(g_stack_used) + "\n";
     fwrite(g_out.data(), 1, g_out.size(), stdout);
